@@ -193,6 +193,8 @@ type Exec struct {
 	refAx   map[string]bool
 	known   map[string]bool
 	freshOnly map[string]bool
+	drySorts  map[string]string // sorts of heap keys seen modified in loop dry runs
+	wfDone    map[string]bool   // heap versions that already carry the well-typed-heap fact
 	termNames map[string]string // nameTerm memo
 	rawArgs   map[*ast.CallExpr]map[int]boundVar // slices passed as interface arguments, unboxed
 	// sample values of path events first recorded inside a loop body (shape for the loop-head havoc)
@@ -793,6 +795,55 @@ func (e *Exec) refKeyAxiom(key string) {
 		init = e.heapInit[key]
 	}
 	e.decls = append(e.decls, fmt.Sprintf("(assert (forall ((r!w Int)) (! (<= (root (select %s r!w)) alloc0) :pattern ((select %s r!w)))))", init, init))
+}
+
+// wfHeaps: in every reachable state references stored in the heap point to objects that exist (root <= alloc). The
+// entry versions get this as axioms; versions created by forgetting (loop heads, callee effects) get it here, at
+// points where heap and allocation counter are in sync.
+func (e *Exec) wfHeaps() {
+	if e.st == nil {
+		return
+	}
+	if e.wfDone == nil {
+		e.wfDone = map[string]bool{}
+	}
+	emit := func(key string, twoLevel bool) {
+		cur, ok := e.st.heap[key]
+		if !ok {
+			return
+		}
+		// innermost named version under stores
+		for strings.HasPrefix(cur, "(store ") {
+			parts := splitSexp(cur[1 : len(cur)-1])
+			if len(parts) != 4 {
+				return
+			}
+			cur = parts[1]
+		}
+		if strings.HasPrefix(cur, "(") || strings.HasPrefix(cur, "H0.") || strings.HasPrefix(cur, "Hm.") || strings.HasPrefix(cur, "H.") {
+			return
+		}
+		if _, live := e.declared[cur]; !live || e.wfDone[cur+"|"+e.st.alloc] {
+			return
+		}
+		e.wfDone[cur+"|"+e.st.alloc] = true
+		if twoLevel {
+			e.addFact(fmt.Sprintf("(forall ((m!w Int) (k!w Int)) (! (<= (root (select (select %s m!w) k!w)) %s) :pattern ((select (select %s m!w) k!w))))", cur, e.st.alloc, cur))
+		} else {
+			e.addFact(fmt.Sprintf("(forall ((r!w Int)) (! (<= (root (select %s r!w)) %s) :pattern ((select %s r!w))))", cur, e.st.alloc, cur))
+		}
+	}
+	for _, k := range []string{"map#val.base", "map#val:Ref", "elems:Ref", "elems:Val"} {
+		emit(k, true)
+	}
+	var ks []string
+	for k := range e.refAx {
+		ks = append(ks, k)
+	}
+	sortStrings(ks)
+	for _, k := range ks {
+		emit(k, false)
+	}
 }
 
 // sliceFacts: basic well-formedness of a slice read from the heap.
